@@ -218,8 +218,23 @@ class C12:
         geometry/operations.py, and `__all__` must name each public function once (a name listed twice is another one missing)."""
         ctx = self.ctx
         pkg = ctx.index.module("soundevent.geometry")
+        def binding(mod, name, depth=0):
+            """what `name` is bound to in `mod`, following `x = module.attr` / `x = y` aliases"""
+            sy = ctx.index.resolve(mod, name)
+            if sy is not None and sy.kind == "assign" and depth < 4 and sy.module is not None:
+                d_ = [x for x in sy.module.defs.get(name, []) if isinstance(x, (ast.Assign, ast.AnnAssign)) and x.value is not None]
+                if len(d_) == 1 and isinstance(d_[0].value, (ast.Name, ast.Attribute)):
+                    try:
+                        s2 = ctx.index.resolve_expr(sy.module, d_[0].value)
+                    except Exception:  # noqa: BLE001
+                        s2 = None
+                    if s2 is not None and s2.kind == "assign" and isinstance(d_[0].value, ast.Name):
+                        return binding(s2.module, d_[0].value.id, depth + 1)
+                    return s2 if s2 is not None else sy
+            return sy
+
         for name in ("intervals_overlap", "have_temporal_overlap", "have_frequency_overlap", "is_in_clip"):
-            sy = ctx.index.resolve(pkg, name)
+            sy = binding(pkg, name)
             if sy is not None and sy.kind == "func" and sy.module is not None and sy.module.name in (OPS, pkg.name) or \
                     (sy is not None and sy.kind == "func" and ctx.index.canonical_qual("func", sy.qual) == f"{OPS}:{name}"):
                 ctx.ok("R12.6", f"{pkg.relpath} {name}", f"soundevent.geometry.{name} is the predicate of geometry/operations.py")
@@ -229,10 +244,26 @@ class C12:
                         f"geometry/operations.py, so the predicate cannot be reached through the public package "
                         f"(AttributeError / ImportError for `from soundevent.geometry import {name}`)", 1)
         for st in pkg.tree.body:
-            if isinstance(st, ast.Assign) and any(isinstance(t, ast.Name) and t.id == "__all__" for t in st.targets) and isinstance(st.value, (ast.List, ast.Tuple)):
-                names = [e.value for e in st.value.elts if isinstance(e, ast.Constant)]
+            if isinstance(st, ast.Assign) and any(isinstance(t, ast.Name) and t.id == "__all__" for t in st.targets):
+                if isinstance(st.value, (ast.List, ast.Tuple)) and all(isinstance(e, ast.Constant) for e in st.value.elts):
+                    names = [e.value for e in st.value.elts]
+                else:
+                    # a computed list (sorted(...), list(NAMES), "a b".split()): its value, when it is a constant expression
+                    names = None
+                    try:
+                        from sa.sym import TRUE, Evaluator
+                        v_ = peval(Evaluator(ctx.index, pkg, st.value, f"{pkg.name}:__all__", None).ev(st.value, TRUE), {})
+                        if v_[0] in ("list", "tuple") and all(x[0] == "const" for x in v_[1]):
+                            names = [x[1] for x in v_[1]]
+                        elif v_[0] == "const" and isinstance(v_[1], (list, tuple)):
+                            names = list(v_[1])
+                    except Exception:  # noqa: BLE001
+                        names = None
+                    if names is None:
+                        ctx.ok("R12.6", f"{pkg.relpath}:{st.lineno} __all__", "__all__ is computed (not a literal list): its entries are not compared")
+                        continue
                 dup = sorted({n for n in names if names.count(n) > 1})
-                unbound = [n for n in names if ctx.index.resolve(pkg, n) is None]
+                unbound = [n for n in names if binding(pkg, n) is None]
                 if dup or unbound:
                     ctx.bad("R12.6", pkg.relpath, "__all__", f"__all__ duplicates {dup} unbound {unbound}",
                             f"soundevent.geometry.__all__ lists {dup} twice{' and names unbound ' + str(unbound) if unbound else ''}: a duplicated "
